@@ -751,10 +751,11 @@ class Path:
         return Path(new_t)
 
     def __repr__(self):
-        return _format_path(self.path_t.__ops__[1:])
+        return _format_path(self.path_t.__ops__[1:], self.path_t.__ops__[0])
 
 
-def _format_path(t_path):
+def _format_path(t_path, root=None):
+    root = T if root is None else root
     path_parts, cur_t_path = [], []
     i = 0
     while i < len(t_path):
@@ -772,10 +773,15 @@ def _format_path(t_path):
         path_parts.append(cur_t_path)
 
     if path_parts or not cur_t_path:
-        return 'Path(%s)' % ', '.join([_format_t(part)
-                                       if type(part) is list else repr(part)
-                                       for part in path_parts])
-    return _format_t(cur_t_path)
+        fmtd_parts = [_format_t(part) if type(part) is list else repr(part)
+                      for part in path_parts]
+        if root is not T:  # only the first part can be rooted at S or A
+            if path_parts and type(path_parts[0]) is list:
+                fmtd_parts[0] = _format_t(path_parts[0], root)
+            else:
+                fmtd_parts.insert(0, _format_t([], root))
+        return 'Path(%s)' % ', '.join(fmtd_parts)
+    return _format_t(cur_t_path, root)
 
 
 class Spec:
@@ -1738,7 +1744,7 @@ def _format_t(path, root=T):
             args, kwargs = arg
             prepr.append(format_invocation(args=args, kwargs=kwargs, repr=bbrepr))
         elif op == 'P':
-            return _format_path(path)
+            return _format_path(path, root)
         elif op == 'x':
             prepr.append(".__star__()")
         elif op == 'X':
